@@ -9,6 +9,11 @@ from zope.interface.interface import InterfaceClass
 
 NAMES = ['', 'I', 'IA', 'IB', 'Ia', 'IРесурсА', 'IРесурсБ', 'I\U0001F600a', 'I\U0001F600b']
 MODS = ['', 'm', 'ma', 'n', 'é']
+# one name per internal str representation (1, 2, 4 bytes per character) chosen so that comparing the raw buffers
+# (byte-wise, either endianness, or by length first) disagrees with the code-point order of the strings
+WIDE = ['I\xe9', 'I\xff', 'I\u0100', 'I\u01ff', 'I\u0200', '\u63a5\u53e3', '\u7528\u6237', '\u63a5',
+        'I\U00010000', 'I\U0001ffff', 'I\U00020000', 'I\U00020000a']
+WIDEMODS = ['', 'app.\u7528\u6237', 'app.\u63a5\u53e3']
 
 
 def pool():
@@ -16,6 +21,9 @@ def pool():
     for n in NAMES:
         for m in MODS[:3] if n in ('', 'I', 'IA') else MODS[:2] + MODS[4:]:
             # names built at run time (distinct str objects with equal contents)
+            ifs.append(InterfaceClass(''.join(list(n)), (Interface,), {}, __module__=''.join(list(m))))
+    for n in WIDE:
+        for m in WIDEMODS if n in ('\u63a5\u53e3', 'I\u01ff') else WIDEMODS[:1]:
             ifs.append(InterfaceClass(''.join(list(n)), (Interface,), {}, __module__=''.join(list(m))))
     # duplicates: equal key, distinct objects
     ifs.append(InterfaceClass('I' + 'A', (Interface,), {}, __module__='m' + ''))
@@ -25,7 +33,7 @@ def pool():
 
 def class_specs():
     out = []
-    for n, m in (('K', 'm'), ('K', 'm'), ('IA', 'x'), ('', ''), ('Ka', 'm')):
+    for n, m in (('K', 'm'), ('K', 'm'), ('IA', 'x'), ('', ''), ('Ka', 'm'), ('\u7528\u6237', 'app.\u63a5\u53e3'), ('I\u0200', '')):
         c = type(n, (object,), {'__module__': m})
         out.append(implementedBy(c))
     return out
@@ -111,8 +119,8 @@ def replay():
 
 
 def run(ctx):
-    ctx.rule = ('all ordered pairs (and triples of a sub-pool) over %d interfaces / 5 class specifications with empty, equal, '
-                'prefix-related and non-ASCII (BMP and astral) names and modules built at run time, None and foreign objects; '
+    ctx.rule = ('all ordered pairs (and triples of a sub-pool) over %d interfaces / 7 class specifications with empty, equal, '
+                'prefix-related and non-ASCII names (Latin-1, BMP and astral code points whose raw buffers order differently from the strings) and modules built at run time, None and foreign objects; '
                 'expected relations computed from the (name, module) str pairs; distinct = distinct operand tuples' % len(pool()))
     ctx.bounds = 'fixed pool of names x modules'
     bad, n = run_checks()
